@@ -88,7 +88,7 @@ Cls(i) == LET ss == Cases[i] IN IF ss = <<>> THEN "empty" ELSE Shape(ss[1]) \o "
 
 EmitInv == (EmitOn /\ Final) =>
    Emit([fam |-> "scope", cls |-> Cls(pid), key |-> "scope#" \o IntStr(pid), pid |-> pid,
-         toks |-> Compact(Yield(MinParen(P))), stdin |-> stdin, repl |-> repl,
+         toks |-> Compact(Yield(MinParen(P))), tree |-> P, stdin |-> stdin, repl |-> repl,
          status |-> status, why |-> why, out |-> out, diags |-> diags, natlog |-> natlog, steps |-> steps])
 OnlyScopeErrors == status = "error" => diags[1].kind \in {"undef", "redeclare", "operand"}
 (* a block, loop or call that has finished leaves the current scope as it found it *)
